@@ -40,7 +40,7 @@ fn main() {
             }
         }
     }
-    let get = |k: &str, d: u64| kv.get(k).map(|v| v.parse::<u64>().expect("numeric option")).unwrap_or(d);
+    let get = |k: &str, d: u64| kv.get(k).map(|v| v.parse::<u64>().unwrap_or(d)).unwrap_or(d);
 
     install_panic_hook();
     prewarm();
@@ -121,6 +121,35 @@ fn main() {
             }
             "block" => {
                 rt.block_on(chmux_block::scenario(s));
+            }
+            "peer_script" => {
+                // one scenario per line of the script file (TLC-generated behaviours)
+                let path = kv.get("script").expect("script=<file>").clone();
+                let text = std::fs::read_to_string(&path).expect("read script");
+                let mut first = true;
+                for (i, line) in text.lines().enumerate() {
+                    let v: serde_json::Value = match serde_json::from_str(line) {
+                        Ok(v) => v,
+                        Err(_) => continue,
+                    };
+                    if !first {
+                        uninstall_hooks();
+                        let lines = trace_end();
+                        events += lines.len() as u64;
+                        for l in lines {
+                            writeln!(w, "{l}").unwrap();
+                        }
+                        trace_begin();
+                        install_hook_sink();
+                        scen_extra += 1;
+                    }
+                    first = false;
+                    let rt2 = runtime();
+                    rt2.block_on(chmux_peer::script_scenario(i as u64 + 1, &v));
+                }
+            }
+            "peer" => {
+                rt.block_on(chmux_peer::scenario(s, get("hostile", 1) != 0));
             }
             "idle" => {
                 rt.block_on(chmux_misc::idle(s, get("periods", 1000)));
